@@ -1,0 +1,125 @@
+//go:build verif
+
+package segmentpb
+
+// Machine-checked contracts for this package (comment-only; excluded from normal builds).
+// A segment list is read as a step function of time: segment i is active on [cum(i), cum(i+1)); a segment
+// without a length is infinite.
+
+//@ property C18
+//@ pure func durNS(d) = d.Seconds * 1000000000 + d.Nanos
+//@ pure func validLen(d) = 0 <= d.Seconds && d.Seconds <= 4000000000 && 0 <= d.Nanos && d.Nanos <= 999999999
+//@ spec func cum(segs []*traits.ElectricMode_Segment, i int) mathint
+//@ axiom cum0: forall segs []*traits.ElectricMode_Segment :: cum(segs, 0) == 0
+//@ axiom cumStep: forall segs []*traits.ElectricMode_Segment, i int :: 0 <= i && i < len(segs) && segs[i] != nil && segs[i].Length != nil ==> cum(segs, i+1) == cum(segs, i) + durNS(segs[i].Length)
+//@ // type invariant of a segment list: elements present, lengths non-negative, total finite length fits comfortably in int64
+//@ pure func wfSegs(segs) = forall i int :: 0 <= i && i < len(segs) ==> segs[i] != nil && (segs[i].Length != nil ==> validLen(segs[i].Length) && 0 <= cum(segs, i) && cum(segs, i+1) <= 4611686018427387904)
+//@ // every segment before k is finite and has ended by d
+//@ pure func allEndedBy(segs, k, d) = forall j int :: 0 <= j && j < k ==> segs[j].Length != nil && cum(segs, j+1) <= d
+//@
+//@ func ActiveAt(d, segments) (elapsed, index)
+//@   requires wfSegs(segments)
+//@   ensures [negative] d < 0 ==> elapsed == d && index == 0
+//@   ensures [range] d >= 0 ==> 0 <= index && index <= len(segments) && elapsed == cum(segments, index)
+//@   ensures [earlier-ended] d >= 0 ==> allEndedBy(segments, index, d)
+//@   ensures [active] d >= 0 && index < len(segments) ==> segments[index].Length == nil || cum(segments, index+1) > d
+//@   modifies nothing
+//@   loop 0 (k):
+//@     invariant 0 <= k && k <= len(segments)
+//@     invariant cur == cum(segments, k) && 0 <= cur && cur <= 4611686018427387904
+//@     invariant allEndedBy(segments, k, d)
+//@     decreases len(segments) - k
+//@
+//@ // i is the index ActiveAt reports for d: everything before has ended, and segment i (if any) has not
+//@ pure func isActive(segs, i, d) = 0 <= i && i <= len(segs) && allEndedBy(segs, i, d) && (i < len(segs) ==> segs[i].Length == nil || cum(segs, i+1) > d)
+//@
+//@ func MagnitudeAt(d, segments) (level, ok)
+//@   requires wfSegs(segments)
+//@   ensures [negative] d < 0 ==> !ok
+//@   ensures [stepfn] forall i int :: d >= 0 && isActive(segments, i, d) ==> ok == (i < len(segments)) && (ok ==> level == segments[i].Magnitude)
+//@   modifies nothing
+//@
+//@ func Duration(s) (total, infinite)
+//@   requires wfSegs(s)
+//@   ensures [finite] !infinite ==> total == cum(s, len(s)) && (forall j int :: 0 <= j && j < len(s) ==> s[j].Length != nil)
+//@   ensures [infinite] infinite ==> exists i int :: 0 <= i && i < len(s) && s[i].Length == nil && total == cum(s, i) && (forall j int :: 0 <= j && j < i ==> s[j].Length != nil)
+//@   modifies nothing
+//@   loop 0 (k):
+//@     invariant 0 <= k && k <= len(s)
+//@     invariant total == cum(s, k) && 0 <= total && total <= 4611686018427387904
+//@     invariant forall j int :: 0 <= j && j < k ==> s[j].Length != nil
+//@     decreases len(s) - k
+//@
+//@ // ---- Max family: largest magnitude among the segments that have positive (or infinite) length ----
+//@ pure func elemsOK(segs) = forall i int :: 0 <= i && i < len(segs) ==> segs[i] != nil && (segs[i].Length != nil ==> validLen(segs[i].Length))
+//@ pure func counted(s) = s.Length == nil || durNS(s.Length) > 0
+//@ pure func noneGreater(segs, k, m) = forall j int :: 0 <= j && j < k && counted(segs[j]) ==> !(m < segs[j].Magnitude)
+//@
+//@ func Max(segments) (index)
+//@   requires elemsOK(segments)
+//@   ensures [range] 0 <= index && index <= len(segments)
+//@   ensures [none] index == len(segments) ==> forall j int :: 0 <= j && j < len(segments) ==> !counted(segments[j])
+//@   ensures [max] index < len(segments) ==> counted(segments[index]) && noneGreater(segments, len(segments), segments[index].Magnitude)
+//@   ensures [first] index < len(segments) ==> forall j int :: 0 <= j && j < index && counted(segments[j]) ==> segments[j].Magnitude < segments[index].Magnitude || isNaN(segments[j].Magnitude)
+//@   modifies nothing
+//@   loop 0 (k):
+//@     invariant 0 <= k && k <= len(segments)
+//@     invariant !found ==> forall j int :: 0 <= j && j < k ==> !counted(segments[j])
+//@     invariant found ==> 0 <= index && index < k && counted(segments[index]) && max == segments[index].Magnitude && noneGreater(segments, k, max)
+//@     invariant found ==> forall j int :: 0 <= j && j < index && counted(segments[j]) ==> segments[j].Magnitude < max || isNaN(segments[j].Magnitude)
+//@     decreases len(segments) - k
+//@
+//@ func MaxMagnitude(segments) (m)
+//@   requires elemsOK(segments)
+//@   ensures [none] (forall j int :: 0 <= j && j < len(segments) ==> !counted(segments[j])) ==> m == 0
+//@   ensures [max] (exists j int :: 0 <= j && j < len(segments) && counted(segments[j])) ==> noneGreater(segments, len(segments), m)
+//@   modifies nothing
+//@
+//@ func durationPositive(d) (r)
+//@   requires d != nil && validLen(d)
+//@   ensures r == (durNS(d) > 0)
+//@   modifies nothing
+//@
+//@ // ---- Cut: split one segment at d without changing the function ----
+//@ func Cut(d, segment) (before, after, outside)
+//@   requires segment != nil && (segment.Length != nil ==> validLen(segment.Length))
+//@   requires istype(segment.Shape, *traits.ElectricMode_Segment_Fixed) ==> cast(segment.Shape, *traits.ElectricMode_Segment_Fixed) != nil
+//@   ensures [nonpositive] d <= 0 ==> before == nil && after == segment && outside == (d < 0)
+//@   ensures [infinite] d > 0 && old(segment.Length) == nil ==> after == segment && !outside && fresh(before) && before.Magnitude == old(segment.Magnitude) && before.Length != nil && durNS(before.Length) == d
+//@   ensures [beyond] d > 0 && old(segment.Length) != nil && old(durNS(segment.Length)) <= d ==> before == segment && after == nil && outside
+//@   ensures [split] d > 0 && old(segment.Length) != nil && old(durNS(segment.Length)) > d ==> !outside && fresh(before) && fresh(after) &&
+//@   |   before.Magnitude == old(segment.Magnitude) && after.Magnitude == old(segment.Magnitude) && before.Length != nil && after.Length != nil &&
+//@   |   durNS(before.Length) == d && durNS(after.Length) == old(durNS(segment.Length)) - d && validLen(after.Length) && validLen(before.Length)
+//@   modifies nothing
+//@
+//@ func MaxAfter(d, segments) (index)
+//@   requires wfSegs(segments)
+//@   ensures [range] 0 <= index && index <= len(segments)
+//@   ensures [after] forall i int :: d >= 0 && isActive(segments, i, d) ==> i <= index
+//@   ensures [max] index < len(segments) ==> counted(segments[index]) && (forall i, j int :: d >= 0 && isActive(segments, i, d) && i <= j && j < len(segments) && counted(segments[j]) ==> !(segments[index].Magnitude < segments[j].Magnitude))
+//@   modifies nothing
+//@
+//@ // ---- Shift: translation of the step function by d; described structurally, case by case ----
+//@ func Shift(d, segments) (out)
+//@   requires wfSegs(segments) && 0 - 4611686018427387904 <= d && d <= 4611686018427387904
+//@   requires forall i int :: 0 <= i && i < len(segments) && istype(segments[i].Shape, *traits.ElectricMode_Segment_Fixed) ==> cast(segments[i].Shape, *traits.ElectricMode_Segment_Fixed) != nil
+//@   ensures [identity] d == 0 || len(segments) == 0 ==> out == segments
+//@   ensures [infinite-idle] d > 0 && len(segments) > 0 && feq(segments[0].Magnitude, 0) && segments[0].Length == nil ==> out == segments
+//@   ensures [extend-idle] d > 0 && len(segments) > 0 && feq(segments[0].Magnitude, 0) && segments[0].Length != nil ==>
+//@   |   len(out) == len(segments) && fresh(out) && fresh(out[0]) && out[0].Magnitude == segments[0].Magnitude && out[0].Length != nil &&
+//@   |   durNS(out[0].Length) == durNS(segments[0].Length) + d && (forall j int :: 1 <= j && j < len(segments) ==> out[j] == segments[j])
+//@   ensures [prepend-idle] d > 0 && len(segments) > 0 && !feq(segments[0].Magnitude, 0) ==>
+//@   |   len(out) == len(segments) + 1 && fresh(out) && fresh(out[0]) && feq(out[0].Magnitude, 0) && out[0].Length != nil && durNS(out[0].Length) == d &&
+//@   |   (forall j int :: 0 <= j && j < len(segments) ==> out[j+1] == segments[j])
+//@   ensures [trim-all] d < 0 && len(segments) > 0 && isActive(segments, len(segments), 0 - d) ==> len(out) == 0
+//@   ensures [trim-infinite] forall i int :: d < 0 && i < len(segments) && isActive(segments, i, 0 - d) && segments[i].Length == nil ==>
+//@   |   len(out) == len(segments) - i && (forall j int :: 0 <= j && j < len(out) ==> out[j] == segments[i+j])
+//@   ensures [trim-cut] forall i int :: d < 0 && i < len(segments) && isActive(segments, i, 0 - d) && segments[i].Length != nil ==>
+//@   |   len(out) == len(segments) - i && fresh(out) && out[0] != nil && out[0].Magnitude == segments[i].Magnitude && out[0].Length != nil &&
+//@   |   durNS(out[0].Length) == cum(segments, i+1) + d && (forall j int :: 1 <= j && j < len(out) ==> out[j] == segments[i+j])
+//@   modifies nothing
+//@   loop 0 (k):
+//@     invariant 0 <= k && k <= len(segments) && d < 0
+//@     invariant cur == cum(segments, k) && 0 <= cur && cur <= 4611686018427387904
+//@     invariant allEndedBy(segments, k, 0 - d)
+//@     decreases len(segments) - k
